@@ -1923,6 +1923,9 @@ class FnLower2(FnLower):
             v = Var("closure", None, rust=pat); v.closure = (cname, capnames, ptys, rty, mon); env[pat] = v
             return
         ab = self.abstracted(i0, env)
+        if ab is None and i0[0] == "ref" and not i0[1]:                 # phase 4k: `let h = &<opaque accessor chain>;` names the same handle
+            ab2 = self.abstracted(strip_paren(i0[2]), env)
+            if ab2 is not None and ab2[1] is None: ab = ab2
         if ab is not None and ab[1] is None:
             env[pat] = Var("handle", ab[0], rust=pat); return          # a local standing for an opaque accessor chain
         if ab is not None and self.opts.get("alias_abstract") and ab[1][1] == "Nat" and not mut and pat not in self.strictly_assigned and ty is None:
@@ -2140,7 +2143,19 @@ class FnLower2(FnLower):
         if self.abs and not self.loop_stack:
             # phase 4f: the continuation of a top-level `for` is emitted inside it (at exhaustion): the abstracted inputs the REST of the
             # function reads are captured too (before: an unbound identifier in the generated file, i.e. no such function was ever accepted)
-            for (bn, bt) in self.abs_in([list(stmts[i + 1:]), tail] if tail is not None else [list(stmts[i + 1:])], env):
+            envc = env
+            for st in stmts[i + 1:]:
+                # phase 4k: a handle local introduced by the continuation (`let h = &self.conv;`) is known while scanning the continuation,
+                # so that an extern receiver call through it (`h.as_ref().unwrap().fast_convert_array(..)`) is captured as well
+                if st[0] == "let" and isinstance(st[1], str) and st[4] is not None:
+                    j0 = strip_paren(st[4])
+                    if j0[0] == "ref" and not j0[1]: j0 = strip_paren(j0[2])
+                    try: cc = self.canon(j0, envc)
+                    except Exception: cc = None
+                    if cc is not None and cc in self.abs and self.abs[cc] is None:
+                        if envc is env: envc = dict_copy(env)
+                        envc[st[1]] = Var("handle", cc, rust=st[1])
+            for (bn, bt) in self.abs_in([list(stmts[i + 1:]), tail] if tail is not None else [list(stmts[i + 1:])], envc):
                 if bn not in cap_names: cap_names.append(bn); cap_binders.append(f"({bn} : {bt})")
         if self.opts.get("alias_abstract"):
             # captured inputs in TABLE order after the ordinary locals (independent of the order of the `let`s that name them)
@@ -3341,6 +3356,7 @@ RNS_Q = [("self.base_q.len()", "qSize", "Nat"), ("self.base_q.base_at(#)", "base
 RNS_QB = [("self.base_q.len()", "qSize", "Nat"), ("self.base_q.base()",), ("self.base_q.base()[#]", "baseQ", "List Modulus"),
           ("self.coeff_count", "coeffCount", "Nat"), ("self.inv_q_last_mod_q[#]", "invQLastModQ", "List MulOperand"),
           ("self.t", "tMod", "Modulus"), ("self.inv_q_last_mod_t", "invQLastModT", "Nat")]
+from rs2lean_rns4k import TABLE_RNS_4K      # phase 4k (worker Q): the rest of the BEHZ layer
 TABLE_RNS = [
     {"file": MD, "fn": "reduce", "impl": "Modulus", "lean": "modulus_reduce", "model": "barrett64"},
     {"file": UP, "fn": "modulo", "iters": True, "model": "mapM barrett64"},
@@ -3376,7 +3392,7 @@ TABLE_RNS = [
      "abstract": [("self.base_q.len()", "qSize", "Nat"), ("self.base_Bsk.len()", "bskSize", "Nat"), ("self.coeff_count", "coeffCount", "Nat"),
                   ("self.base_Bsk.base_at(#)", "baseBsk", "List Modulus"), ("self.inv_prod_q_mod_Bsk[#]", "invProdQModBsk", "List MulOperand")],
      "extern": [{"rcall": "self.base_q_to_Bsk_conv.fast_convert_array", "binder": "qToBskF"}]},
-]
+] + TABLE_RNS_4K
 PRELUDE_RNS = """/-- bounds-checked reads of the list inputs that stand for `Vec<Modulus>` / `Vec<MultiplyU64ModOperand>` fields -/
 def idxMod (l : List Modulus) (i : Nat) : R Modulus := match l[i]? with | some x => .ok x | none => .error .oob
 def idxOp (l : List MulOperand) (i : Nat) : R MulOperand := match l[i]? with | some x => .ok x | none => .error .oob
